@@ -62,7 +62,21 @@ type Number interface {
 */
 
 // Hashable in tem of Go map for cache key.
+// Nested small containers are looked into, up to a point: a value referencing the same small container from many
+// places (m = {"a": m, "b": m}, repeated) is a few nodes in memory and an astronomic number to walk, which
+// neither the depth limit nor the deadline interrupts here.
 func Hashable(o Object) bool {
+	budget := maxHashableNodes
+	return hashable(o, &budget)
+}
+
+const maxHashableNodes = 1000
+
+func hashable(o Object, budget *int) bool {
+	*budget--
+	if *budget < 0 {
+		return false
+	}
 	switch o.Type() { //nolint:exhaustive // We have all the types that are hashable + default for the others.
 	// register because it's a pointer though dubious whether it's hashable for cache key.
 	case INTEGER, FLOAT, BOOLEAN, NIL, STRING, REGISTER:
@@ -70,7 +84,7 @@ func Hashable(o Object) bool {
 	case ARRAY:
 		if sa, ok := o.(SmallArray); ok {
 			for _, el := range sa.smallArr[:sa.len] {
-				if !Hashable(el) {
+				if !hashable(el, budget) {
 					return false
 				}
 			}
@@ -79,7 +93,7 @@ func Hashable(o Object) bool {
 	case MAP:
 		if sm, ok := o.(SmallMap); ok {
 			for _, kv := range sm.smallKV[:sm.len] {
-				if !Hashable(kv.Key) || !Hashable(kv.Value) {
+				if !hashable(kv.Key, budget) || !hashable(kv.Value, budget) {
 					return false
 				}
 			}
@@ -320,33 +334,55 @@ func (m *BigMap) Set(key, value Object) Map {
 	return m
 }
 
-// DeepCopy returns a value sharing no array or map storage with o (the very object when it holds none).
-func DeepCopy(o Object) Object {
+// DeepCopy returns a value sharing no array or map storage with o (the very object when it holds none), and
+// false when o is too big to copy: a container referenced from many places inside o is copied as many times, so
+// a few nodes in memory can stand for an astronomic tree.
+func DeepCopy(o Object) (Object, bool) {
+	budget := maxDeepCopyNodes
+	return deepCopy(o, &budget)
+}
+
+const maxDeepCopyNodes = 1 << 20
+
+func deepCopy(o Object, budget *int) (Object, bool) {
+	*budget--
+	if *budget < 0 {
+		return nil, false
+	}
+	ok := true
+	cp := func(e Object) Object {
+		if !ok {
+			return nil
+		}
+		var c Object
+		c, ok = deepCopy(e, budget)
+		return c
+	}
 	switch v := o.(type) {
 	case SmallArray:
 		for i := range v.len {
-			v.smallArr[i] = DeepCopy(v.smallArr[i])
+			v.smallArr[i] = cp(v.smallArr[i])
 		}
-		return v
+		return v, ok
 	case BigArray:
 		els := make([]Object, len(v.elements))
 		for i, e := range v.elements {
-			els[i] = DeepCopy(e)
+			els[i] = cp(e)
 		}
-		return BigArray{elements: els}
+		return BigArray{elements: els}, ok
 	case SmallMap:
 		for i := range v.len {
-			v.smallKV[i] = keyValuePair{Key: DeepCopy(v.smallKV[i].Key), Value: DeepCopy(v.smallKV[i].Value)}
+			v.smallKV[i] = keyValuePair{Key: cp(v.smallKV[i].Key), Value: cp(v.smallKV[i].Value)}
 		}
-		return v
+		return v, ok
 	case *BigMap:
 		kv := make([]keyValuePair, len(v.kv))
 		for i, p := range v.kv {
-			kv[i] = keyValuePair{Key: DeepCopy(p.Key), Value: DeepCopy(p.Value)}
+			kv[i] = keyValuePair{Key: cp(p.Key), Value: cp(p.Value)}
 		}
-		return &BigMap{kv: kv}
+		return &BigMap{kv: kv}, ok
 	}
-	return o
+	return o, true
 }
 
 // CloneMap returns a map that shares no storage with m (a small map is a value already).
